@@ -259,7 +259,27 @@ fn looks_like_handle(v: &Value) -> bool {
 
 fn case_json(t: &mut Tape, st: &mut Stats, depth: usize, width: usize) -> Verdict {
     let mut ctx = sdk_context();
-    let doc = gen_json(t, depth, width, st);
+    let mut doc = gen_json(t, depth, width, st);
+    if t.chance(1, 80) {
+        if t.flip() {
+            // deep: 65..120 levels of arrays / objects around a small document (below the JSON reader's own limit of 128)
+            let levels = 65 + t.below(56);
+            let mut v = gen_json(t, 1, 2, st);
+            if v.is_null() {
+                v = Value::String("leaf".into());
+            }
+            for i in 0..levels {
+                v = if t.flip() { Value::Array(vec![Value::String(format!("l{}", i)), v]) } else { serde_json::json!({ "k": v, "n": i.to_string() }) };
+            }
+            doc = v;
+            st.class("json-nested-deeper-than-64");
+        } else {
+            // wide: an array or object of 1000..4000 members
+            let n = 1000 + t.below(3000);
+            doc = if t.flip() { Value::Array((0..n).map(|i| Value::String(format!("v{}", i))).collect()) } else { Value::Object((0..n).map(|i| (format!("key{}", i), Value::String(i.to_string()))).collect()) };
+            st.class("json-with-over-1000-members");
+        }
+    }
     if doc.is_null() {
         return Verdict::Discard("root-level null");
     }
@@ -437,7 +457,7 @@ fn case_properties(t: &mut Tape, st: &mut Stats) -> Verdict {
 pub fn property() -> Property {
     Property {
         id: "C17",
-        rule: "(text) arbitrary Unicode texts incl. empty, NUL, controls, BOM, astral, and - one case in sixty - texts of 4 KiB .. 70 KiB, delivered through a variable: bytes_to_string(string_to_bytes(t)) == t, base64_encode equals an independent reference encoder, bytes_to_string(base64_decode(base64_encode(..))) == t, handles released and the handle table back to its size; (hex) u64 edges and random values: hex_encode equals a reference, hex_decode(hex_encode(n)) == n; (json) documents from a grammar (depth <= 4/6, width <= 5/8, string/integer/edge-integer/dyadic-decimal/bool/null leaves, hazardous keys) in compact or pretty form: json_encode --collection(json_parse --collection d) equals normalise(d) as a JSON value (scalars to strings, nulls dropped), release -r returns the handle table to its size - one case in three parses into an output variable that still holds the collection of an earlier parse kept under another name, which must still encode to its own document afterwards; (properties) maps with keys/values over '=', ':', '#', '!', spaces, LF, CR, tab, form feed, backslash, quotes, Latin-1 range, CJK, astral and random characters: map_load_properties(map_to_properties(m)) into a fresh map (one case in four: a map into which the load of a malformed text was refused just before) has the same keys and values. Non-trivial: text with a multi-byte or control character / JSON of depth >= 2 with a null / map with a non-alphanumeric character; distinct by input",
+        rule: "(text) arbitrary Unicode texts incl. empty, NUL, controls, BOM, astral, and - one case in sixty - texts of 4 KiB .. 70 KiB, delivered through a variable: bytes_to_string(string_to_bytes(t)) == t, base64_encode equals an independent reference encoder, bytes_to_string(base64_decode(base64_encode(..))) == t, handles released and the handle table back to its size; (hex) u64 edges and random values: hex_encode equals a reference, hex_decode(hex_encode(n)) == n; (json) documents from a grammar (one in eighty hand-shaped: 65..120 levels deep, or a single array / object of 1000..4000 members) (depth <= 4/6, width <= 5/8, string/integer/edge-integer/dyadic-decimal/bool/null leaves, hazardous keys) in compact or pretty form: json_encode --collection(json_parse --collection d) equals normalise(d) as a JSON value (scalars to strings, nulls dropped), release -r returns the handle table to its size - one case in three parses into an output variable that still holds the collection of an earlier parse kept under another name, which must still encode to its own document afterwards; (properties) maps with keys/values over '=', ':', '#', '!', spaces, LF, CR, tab, form feed, backslash, quotes, Latin-1 range, CJK, astral and random characters: map_load_properties(map_to_properties(m)) into a fresh map (one case in four: a map into which the load of a malformed text was refused just before) has the same keys and values. Non-trivial: text with a multi-byte or control character / JSON of depth >= 2 with a null / map with a non-alphanumeric character; distinct by input",
         assumptions: &[
             "a root-level null document and string leaves spelled like handles are not generated",
             "JSON numbers are generated in serde_json's canonical spelling",
@@ -445,7 +465,7 @@ pub fn property() -> Property {
         sections: vec![
             Section { name: "text", plan: |t| match t { Tier::Quick => Plan::Random { cases: 100_000, max_len: 60 }, Tier::Thorough => Plan::Random { cases: 8_000_000, max_len: 100 } }, case: case_text, min_classes: &[("empty-text", 1000), ("text-with-nul", 1000), ("text-starting-with-bom", 100), ("text-longer-than-4096-bytes", 800)] },
             Section { name: "hex", plan: |t| match t { Tier::Quick => Plan::Random { cases: 40_000, max_len: 6 }, Tier::Thorough => Plan::Random { cases: 2_000_000, max_len: 6 } }, case: case_hex, min_classes: &[] },
-            Section { name: "json", plan: |t| match t { Tier::Quick => Plan::Random { cases: 60_000, max_len: 400 }, Tier::Thorough => Plan::Skip }, case: case_json_q, min_classes: &[("json-depth-2", 5000), ("json-with-null", 5000), ("json-hazardous-key", 5000), ("json-output-variable-holds-an-earlier-document", 5000)] },
+            Section { name: "json", plan: |t| match t { Tier::Quick => Plan::Random { cases: 60_000, max_len: 400 }, Tier::Thorough => Plan::Skip }, case: case_json_q, min_classes: &[("json-depth-2", 5000), ("json-with-null", 5000), ("json-hazardous-key", 5000), ("json-output-variable-holds-an-earlier-document", 5000), ("json-nested-deeper-than-64", 200), ("json-with-over-1000-members", 200)] },
             Section { name: "json-deep", plan: |t| match t { Tier::Quick => Plan::Skip, Tier::Thorough => Plan::Random { cases: 4_000_000, max_len: 1500 } }, case: case_json_t, min_classes: &[] },
             Section { name: "properties", plan: |t| match t { Tier::Quick => Plan::Random { cases: 60_000, max_len: 160 }, Tier::Thorough => Plan::Random { cases: 4_000_000, max_len: 200 } }, case: case_properties, min_classes: &[("properties-latin1-range", 2000), ("properties-astral", 2000), ("properties-edge-space", 2000), ("properties-refused-load-before-the-read-back", 5000)] },
         ],
